@@ -1,5 +1,5 @@
 import Rbacx.Spec.Roles
-import Rbacx.Model.Engine
+import Rbacx.Proofs.RolesEngine
 /-
   C18 — Role expansion = reflexive-transitive closure, used as is.
 
@@ -15,7 +15,7 @@ import Rbacx.Model.Engine
   the kernel accepted the decrease proofs `Roles.step_decreases` / `Roles.unvisited_cons_lt`.
 -/
 namespace Rbacx.C18
-open Rbacx Rbacx.Roles
+open Rbacx Rbacx.Roles Rbacx.RolesEngine
 
 /-! ### the resolver -/
 
@@ -42,15 +42,6 @@ theorem c18_sorted_nodup (g : Graph) (rs : List String) :
 
 /-- no roles (`[]` or `None`) ⇒ nothing, whatever the graph -/
 theorem c18_empty (g : Graph) : expand g [] = [] ∧ expandOpt g none = [] := ⟨rfl, rfl⟩
-
-theorem parentOf_mem {g : Graph} {b c : String} (hp : parentOf g b c) : ∃ e ∈ g, c ∈ e.2 := by
-  unfold parentOf parents at hp
-  cases hl : lookup b g with
-  | none => rw [hl] at hp; cases hp
-  | some ps =>
-    rw [hl] at hp
-    obtain ⟨k, hk⟩ := Spec.Roles.lookup_mem hl
-    exact ⟨(k, ps), hk, hp⟩
 
 /-- `expand` is a total function of ANY graph (the definition is well-founded recursion, see the
     header) and it invents nothing: every returned role is one of the given roles or occurs in
@@ -91,91 +82,22 @@ theorem c18_cycle (a b : String) (r : String) :
       simp [parentOf, parents, lookup]
 
 /-- the model's own output is accepted by the independent verdict the driver evaluates on the
-    implementation's output (`Spec.Roles.isClosureOf`), and any output accepted by that verdict
-    has the two properties above -/
+    implementation's output (`Spec.Roles.isClosureOf`: strictly increasing, contains the roots,
+    closed under parents, within the naive iterated closure) -/
 theorem c18_model_meets_spec (g : Graph) (rs : List String) :
     Spec.Roles.isClosureOf g rs (expand g rs) = true :=
   Spec.Roles.isClosureOf_complete g rs _ (c18_sorted_nodup g rs).1 (c18_closure g rs)
 
+/-- and that verdict accepts nothing else: an output it accepts IS the model's output, so a run in
+    which the verdict holds of every implementation output establishes `expand`-equality case by case -/
 theorem c18_spec_verdict_sound (g : Graph) (rs out : List String) (h : Spec.Roles.isClosureOf g rs out = true) :
     out = expand g rs := by
   obtain ⟨hs, hm⟩ := Spec.Roles.isClosureOf_sound g rs out h
-  -- two strictly increasing lists with the same members are equal
-  have key : ∀ (l₁ l₂ : List String), l₁.Pairwise (· < ·) → l₂.Pairwise (· < ·) → (∀ r, r ∈ l₁ ↔ r ∈ l₂) → l₁ = l₂ := by
-    intro l₁
-    induction l₁ with
-    | nil =>
-      intro l₂ _ _ hm
-      cases l₂ with
-      | nil => rfl
-      | cons y ys => exact absurd ((hm y).mpr List.mem_cons_self) (by simp)
-    | cons x xs ih =>
-      intro l₂ h1 h2 hm
-      cases l₂ with
-      | nil => exact absurd ((hm x).mp List.mem_cons_self) (by simp)
-      | cons y ys =>
-        have hx := List.pairwise_cons.mp h1
-        have hy := List.pairwise_cons.mp h2
-        have hxy : x = y := by
-          rcases List.mem_cons.mp ((hm x).mp List.mem_cons_self) with h | h
-          · exact h
-          · rcases List.mem_cons.mp ((hm y).mpr List.mem_cons_self) with h' | h'
-            · exact h'.symm
-            · exact absurd (String.lt_trans (hy.1 x h) (hx.1 y h')) (String.lt_irrefl y)
-        subst hxy
-        congr 1
-        apply ih ys hx.2 hy.2
-        intro r
-        constructor
-        · intro hr
-          rcases List.mem_cons.mp ((hm r).mp (List.mem_cons_of_mem _ hr)) with h | h
-          · subst h; exact absurd (hx.1 r hr) (String.lt_irrefl r)
-          · exact h
-        · intro hr
-          rcases List.mem_cons.mp ((hm r).mpr (List.mem_cons_of_mem _ hr)) with h | h
-          · subst h; exact absurd (hy.1 r hr) (String.lt_irrefl r)
-          · exact h
-  apply key _ _ hs (c18_sorted_nodup g rs).1
+  apply pairwise_lt_ext _ _ hs (c18_sorted_nodup g rs).1
   intro r
   rw [hm r, c18_closure]
 
 /-! ### the engine -/
-
-/-- `list(subject.roles or [])` -/
-def ownRoles (req : Request) : List PyVal := match req.roles with | .list rs => rs | _ => []
-
-/-- `env["subject"]["roles"]` -/
-def subjectRoles (env : PyVal) : PyVal := (env.get "subject").get "roles"
-
-theorem effectiveRoles_eq (cfg : GuardCfg) (req : Request) :
-    effectiveRoles cfg req =
-      match cfg.resolver with
-      | none => .list (ownRoles req)
-      | some f => (f (ownRoles req)).getD (.list (ownRoles req)) := rfl
-
-theorem subjectRoles_buildEnv (cfg : GuardCfg) (req : Request) :
-    subjectRoles (buildEnv cfg req) = effectiveRoles cfg req := by
-  unfold subjectRoles buildEnv
-  cases cfg.strict <;> simp [PyVal.get, PyVal.lookup]
-
-/-- the audit events of a run -/
-def auditEnvs (evs : List Event) : List PyVal :=
-  evs.filterMap fun e => match e with | .audit env .. => some env | _ => none
-
-theorem auditEnvs_guardEval (o : Oracle) (cfg : GuardCfg) (policy : PyVal) (req : Request) (d : Decision)
-    (evs : List Event) (h : guardEval o cfg policy req = .ok (d, evs)) :
-    auditEnvs evs = if cfg.hasLogger then [buildEnv cfg req] else [] := by
-  unfold guardEval at h
-  simp only [condCtx] at h
-  split at h
-  · cases h
-  · rename_i raw _
-    simp only [Except.ok.injEq] at h
-    have h2 := congrArg Prod.snd h
-    simp only at h2
-    rw [← h2]
-    simp only [finishDecision]
-    cases cfg.hasMetrics <;> cases cfg.hasLogger <;> simp [auditEnvs]
 
 /-- with a resolver that answers `rs'` for the subject's own roles, `rs'` — nothing else — is the
     `subject.roles` of the environment the conditions are evaluated in, and the environment in the
@@ -242,15 +164,6 @@ theorem c18_engine_transparent (o : Oracle) (cfg : GuardCfg) (policy : PyVal) (r
   unfold guardEval condCtx
   simp only [← henv]
   rfl
-
-/-- the real resolver plugged into the engine: string roles in, expanded string roles out -/
-def staticResolver (g : Graph) : List PyVal → Option PyVal :=
-  fun own => some (.list ((expand g (own.filterMap PyVal.asStr?)).map .str))
-
-theorem filterMap_asStr (rs : List String) : (rs.map PyVal.str).filterMap PyVal.asStr? = rs := by
-  induction rs with
-  | nil => rfl
-  | cons r rs ih => simp [PyVal.asStr?, ih]
 
 /-- both halves together: an engine configured with the static resolver shows the conditions a
     `subject.roles` list in which a role occurs (Python `in`) iff it is reachable from one of the
